@@ -9,6 +9,7 @@ Exit codes follow ./check: 0 held, 1 VIOLATION (Miri reported Undefined Behavior
 2 inconclusive (Miri could not run, unsupported operation, time-out, answer-count mismatch).
 """
 import hashlib
+import signal
 import json
 import os
 import re
@@ -53,13 +54,19 @@ def parse_ub(stderr):
 
 def run_shard(chk, path, seed, timeout):
     t0 = time.time()
+    # own process group: on a time-out cargo, cargo-miri and the interpreter itself are all killed
+    p = subprocess.Popen(miri_cmd(path), cwd=chk.HARNESS, env=miri_env(chk, seed), stdout=subprocess.PIPE,
+                         stderr=subprocess.PIPE, text=True, start_new_session=True)
     try:
-        r = subprocess.run(miri_cmd(path), cwd=chk.HARNESS, env=miri_env(chk, seed), stdout=subprocess.PIPE,
-                           stderr=subprocess.PIPE, text=True, timeout=timeout)
-        return r.returncode, r.stdout, r.stderr, time.time() - t0
-    except subprocess.TimeoutExpired as e:
-        out = e.stdout.decode() if isinstance(e.stdout, bytes) else (e.stdout or "")
-        return None, out, "time-out after %d s" % timeout, time.time() - t0
+        out, err = p.communicate(timeout=timeout)
+        return p.returncode, out, err, time.time() - t0
+    except subprocess.TimeoutExpired:
+        try:
+            os.killpg(p.pid, signal.SIGKILL)
+        except OSError:
+            pass
+        out, _ = p.communicate()
+        return None, out or "", "time-out after %d s" % timeout, time.time() - t0
 
 
 def classify(chk, pid, entries, rc, out, err):
@@ -139,7 +146,10 @@ def run(chk, pid, tier, seed, workers, cases, strict):
         chk.log("INCONCLUSIVE: the harness does not build / start under Miri")
         return 2
     chk.log("miri build ok in %.1fs" % bw)
-    parts = [entries[i::shards] for i in range(shards)]
+    # thorough: four times as many (smaller) shards as workers, handed out by a pool, so that one slow shard does not
+    # decide the wall time; the time budget is for the whole pool
+    nparts = shards * (4 if tier == "thorough" else 1)
+    parts = [entries[i::nparts] for i in range(nparts)]
     parts = [p for p in parts if p]
     paths = []
     for i, p in enumerate(parts):
@@ -148,20 +158,24 @@ def run(chk, pid, tier, seed, workers, cases, strict):
             for e in p:
                 f.write(json.dumps(e) + "\n")
         paths.append(path)
-    procs = []
-    for i, path in enumerate(paths):
-        procs.append(subprocess.Popen(miri_cmd(path), cwd=chk.HARNESS, env=miri_env(chk, seed + i), stdout=subprocess.PIPE,
-                                      stderr=subprocess.PIPE, text=True))
     deadline = time.time() + timeout
-    results = []
-    for i, p in enumerate(procs):
-        try:
-            out, err = p.communicate(timeout=max(1, deadline - time.time()))
-            results.append(classify(chk, pid, parts[i], p.returncode, out, err))
-        except subprocess.TimeoutExpired:
-            p.kill()
-            out, err = p.communicate()
-            results.append(classify(chk, pid, parts[i], None, out or "", "time-out after %d s" % timeout))
+    unexplored = [0]
+
+    def one(i):
+        remaining = deadline - time.time()
+        if remaining < 30:
+            unexplored[0] += len(parts[i])
+            return {"done": [], "violation": None, "inconclusive": None}
+        rc, out, err, _ = run_shard(chk, paths[i], seed + i, remaining)
+        res = classify(chk, pid, parts[i], rc, out, err)
+        if rc is None and res["violation"] is None:
+            # the time budget ran out: what was not executed is not explored (stated in the evidence), not a failure
+            unexplored[0] += len(parts[i]) - len(res["done"])
+            res["inconclusive"] = None
+        return res
+    from concurrent.futures import ThreadPoolExecutor
+    with ThreadPoolExecutor(max_workers=shards) as ex:
+        results = list(ex.map(one, range(len(parts))))
     wall = time.time() - t0
 
     kf = chk.load_known()
@@ -196,11 +210,12 @@ def run(chk, pid, tier, seed, workers, cases, strict):
                 samples.append({"program": e.get("text"), "history": e.get("kind"), "executed": did})
     merged = {
         "evaluations": len(done), "distinct_nontrivial": len(hashes),
-        "rule": "programs from the C01-C05 generators (cut at any position, not, nested and/or, anonymous variables) whose reference search is small (<= 250 steps) and whose native answer count equals the reference's, plus API-built programs in which a cut executes underneath one or two levels of not(...) / time(...) (expected count = the native run's), plus one-rule programs from the list built-in generators of C16/C17 (append, count, include, exclude, functor, join over lists with bound tails, rule-built lists, bound-variable elements); each is replayed under Miri (Stacked Borrows, data-race detection, leaks ignored) through one of five histories: enumerate + 2 re-asks; solve_all + solve; abandoned query + second query; parse from text + solve + parser calls on odd input; 15 ms timer firing during a slow search + sleep/cancel/read. Oracle: no Undefined Behavior diagnostic, and the answer count under Miri equals the native one. Non-trivial = the history executed a cut, or the timer fired while the search was running, or a list built-in walked a bound tail / rule-built list; distinct by (program, history).",
+        "rule": "programs from the C01-C05 generators (cut at any position, not, nested and/or, anonymous variables) whose reference search is small (<= 250 steps) and whose native answer count equals the reference's, plus API-built programs in which a cut executes underneath one or two levels of not(...) / time(...) (expected count = the native run's), plus one-rule programs from the list built-in generators of C16/C17 (append, count, include, exclude, functor, join over lists with bound tails, rule-built lists, bound-variable elements) and from the comparison / function-term / arithmetic scenario generators of C12-C14 (operands aliased to body-local unbound variables, functor patterns longer than the functor); each is replayed under Miri (Stacked Borrows, data-race detection, leaks ignored) through one of seven histories: enumerate + 2 re-asks; solve_all + solve; abandoned query + second query; parse from text + solve + parser calls on odd input; 15 ms timer firing during a slow search + sleep/cancel/read; program written to a file, loaded with load_kb_from_file and solved, plus a second small file whose end differs from case to case (digit before the final period and nothing after it, decimal number, trailing blanks and empty lines, rule split over lines); query, knowledge base grown / clause added to the queried predicate / removed and re-added / replaced, query again. Oracle: no Undefined Behavior diagnostic, and the answer count under Miri equals the native one. Non-trivial = the history executed a cut, or the timer fired while the search was running, or a list built-in walked a bound tail / rule-built list; distinct by (program, history).",
         "samples": samples, "classes": classes, "discards": {}, "discard_rate": 0.0, "known_hits": known_hits,
         "workers": len(paths),
         "notes": ["miri flags: %s -Zmiri-seed=<VERIF_SEED + shard>" % MIRIFLAGS,
-                  "corpus of %d histories in %d shards; %d executed completely" % (len(entries), len(paths), len(done))] + inconclusive,
+                  "corpus of %d histories in %d shards; %d executed completely" % (len(entries), len(paths), len(done))] + inconclusive
+                 + (["%d histories were not executed within the time budget of %d s (not explored)" % (unexplored[0], timeout)] if unexplored[0] else []),
         "assumptions": ["Miri's Stacked Borrows model is taken as the definition of aliasing UB; memory leaks (parent/child Rc cycles) are not UB and are ignored",
                         "the timer thread's interleaving with the search is whatever Miri's scheduler and the real clock produce, not enumerated"],
     }
@@ -229,5 +244,10 @@ def run(chk, pid, tier, seed, workers, cases, strict):
         chk.log("\n".join(inconclusive))
         chk.log("INCONCLUSIVE: %d shard(s) did not finish" % len(inconclusive))
         return 2
+    if unexplored[0]:
+        chk.log("time budget of %d s used up: %d of %d histories not executed (not explored)" % (timeout, unexplored[0], len(entries)))
+        if len(done) * 2 < len(entries):
+            chk.log("INCONCLUSIVE: fewer than half of the histories were executed")
+            return 2
     chk.log("%s %s: %d histories under Miri, %d distinct non-trivial, %.1fs" % (pid, tier, len(done), len(hashes), wall))
     return 0
